@@ -2,7 +2,7 @@
    storage, for ARBITRARY storage contents (only the low n bits of each field reach the
    wire), for both coherent configurations (B,E) = (LE,LE) and (BE,BE). *)
 From Coq Require Import ZArith List Bool Lia ZifyBool.
-From BP Require Import Bits Schema Spec CMem CMemProofs CRt ByteStep PyEncStep PyEncProofs CCopyProofs CBaseProofs.
+From BP Require Import Bits Schema Spec CMem CMemProofs CRt ByteStep PyEncStep PyEncProofs PyEncTop CCopyProofs CBaseProofs.
 From BPGen Require Import GenC.
 Import ListNotations.
 Open Scope Z_scope.
@@ -669,4 +669,95 @@ Section Main.
       + rewrite Nat2Z.id. subst cap.
         apply (enc_elems_OL B E e IH Hwe Hce Hel l l [] x1 eq_refl Hfa Hp1).
   Qed.
+
+  Lemma enc_msg ext fs : Forall (fun kf => enc_ok B E (snd kf)) fs -> enc_ok B E (TMsg ext fs).
+  Proof.
+    intros IH o x Hw Hc Hs Hpre.
+    rewrite wf_msg in Hw. rewrite !andb_true_iff in Hw. destruct Hw as [[Hkd Hnb] Hwf].
+    rewrite cwf_msg in Hc. rewrite shape_msg in Hs. destruct Hs as (ofs & -> & Hsf).
+    pose proof (nbits_nonneg (TMsg ext fs)) as Hnn. rewrite wf_msg, Hkd, Hnb, Hwf in Hnn. specialize (Hnn eq_refl).
+    assert (Hcap : 0 <= nbits (TMsg ext fs) < 65536) by lia.
+    destruct (ah_val_facts _ Hcap) as [_ Hav].
+    rewrite abs_val_msg, enc_bits_msg. set (v := VM (abs_fields E (OS ofs) fs)).
+    assert (Hv : forall kf fo, In kf fs -> lookup (fst kf) ofs = Some fo -> vfield (fst kf) v = abs_val E (snd kf) fo).
+    { intros [k ft] fo Hin Hl. cbn [fst snd] in *. unfold v, vfield.
+      rewrite (lookup_abs_fields E ofs fs k ft fo Hkd Hin Hl). reflexivity. }
+    assert (Hfn : 0 <= fields_nbits fs).
+    { rewrite nbits_msg in Hnn. clear - Hwf. induction fs as [|h r IHr]; [cbn; lia|].
+      cbn [fields_wf] in Hwf. rewrite !andb_true_iff in Hwf. destruct Hwf as [[[_ _] Hh] Hr].
+      cbn [fields_nbits fold_right]. pose proof (nbits_nonneg _ Hh). specialize (IHr Hr).
+      unfold fields_nbits in IHr. lia. }
+    rewrite nbits_msg in Hpre |- *.
+    destruct (enc_fields B E ofs v fs {| xs := zeros (Z.to_nat (fields_nbits fs)); xi := 0 |} IH Hwf Hc Hsf Hv) as [Hlen _].
+    { unfold cenc_pre. cbn [xs xi]. rewrite zeros_length, bufZ_zeros. change (2 ^ 0) with 1.
+      split; [apply zeros_bytes_ok|]. lia. }
+    split.
+    { rewrite app_length, Nat2Z.inj_add, Hlen. unfold ext_bits. destruct ext; cbn [length]; rewrite ?bits_of_length; lia. }
+    cbn [core]. unfold endecode_message. rewrite andb_false_r, Nat2Z.id. rewrite <- nbits_msg, Hav, nbits_msg.
+    apply cenc_post_prefix; try assumption; try lia.
+    intros x1 Hp1. cbn [fst snd]. rewrite cbind_ret.
+    apply (enc_fields B E ofs v fs x1 IH Hwf Hc Hsf Hv Hp1).
+  Qed.
+
+  Lemma b2z_odd b : Z.b2z (Z.odd b) = b mod 2.
+  Proof. rewrite Zmod_odd. destruct (Z.odd b); reflexivity. Qed.
+
+  Theorem enc_ok_all t : enc_ok B E t.
+  Proof.
+    induction t as [| | n | n | n ms | t IH | x c e IH | x fs IH] using ty_ind'.
+    - intros o x _ _ (bs & -> & Hbs & Hl) Hpre. cbn [csize nbits] in *.
+      split; [reflexivity|]. cbn [core abs_val enc_bits obytes]. destruct ah_facts as (_ & _ & -> & _).
+      destruct bs as [|b [|? ?]]; cbn [length] in Hl; try lia. cbn [hd].
+      apply (enc_base B E HBE 1 [b] x); try assumption; try lia; try reflexivity.
+      cbn [Z_of_bits]. rewrite (native_val_single B E HBE), b2z_odd. change (2 ^ 1) with 2. lia.
+    - intros o x _ _ (bs & -> & Hbs & Hl) Hpre. cbn [csize nbits] in *.
+      split; [reflexivity|]. cbn [core abs_val enc_bits obytes]. destruct ah_facts as (_ & _ & _ & ->).
+      destruct bs as [|b [|? ?]]; cbn [length] in Hl; try lia. cbn [hd zof].
+      apply (enc_base B E HBE 8 [b] x); try assumption; try lia; try reflexivity.
+      change (bits_of 8 b) with (bits_of (Z.to_nat 8) b). rewrite Z_of_bits_of_n by lia. rewrite (native_val_single B E HBE). reflexivity.
+    - intros o x Hw _ (bs & -> & Hbs & Hl) Hpre. cbn [csize nbits wf] in *.
+      cbn [core abs_val enc_bits obytes zof].
+      split; [rewrite bits_of_length; lia|].
+      apply (enc_base B E HBE n bs x); try assumption; try lia. apply Z_of_bits_of_n. lia.
+    - intros o x Hw _ (bs & -> & Hbs & Hl) Hpre. cbn [csize nbits wf] in *.
+      cbn [core abs_val enc_bits obytes zof].
+      split; [rewrite bits_of_length; lia|].
+      apply (enc_int B E HBE n bs x); try assumption; try lia. apply Z_of_bits_of_n. lia.
+    - intros o x Hw _ (bs & -> & Hbs & Hl) Hpre. cbn [csize nbits wf] in *.
+      rewrite !andb_true_iff in Hw.
+      cbn [core abs_val enc_bits obytes zof].
+      split; [rewrite bits_of_length; lia|].
+      apply (enc_base B E HBE n bs x); try assumption; try lia. apply Z_of_bits_of_n. lia.
+    - apply enc_alias, IH.
+    - apply enc_array, IH.
+    - apply enc_msg, IH.
+  Qed.
 End Main.
+
+(* ---------- Encode<Msg> = wire, for arbitrary storage contents ---------- *)
+
+Theorem c_encode_is_wire_abs B E t o :
+  B = E -> PyEncTop.is_msg t = true -> wf (norm t) = true -> cwf (norm t) = true ->
+  shape_ok (norm t) o ->
+  c_encode_ty B E t o = COk (wire t (abs_val E (norm t) o)).
+Proof.
+  intros HBE Hm Hw Hc Hs. unfold c_encode_ty, c_encode, wire.
+  set (T := norm t) in *.
+  assert (HT : exists xx fs, T = TMsg xx fs).
+  { subst T. destruct t; try discriminate Hm. cbn [norm]. eauto. }
+  destruct HT as (xx & fs & HT).
+  pose proof (nbits_nonneg T Hw) as Hnn.
+  assert (Hnb : nbytes t = (nbits T + 7) / 8) by (subst T; rewrite PyEncTop.nbits_norm; reflexivity).
+  set (x0 := {| xs := zeros (Z.to_nat (nbytes t)); xi := 0 |}).
+  assert (Hpre : cenc_pre x0 (nbits T)).
+  { unfold cenc_pre, x0. cbn [xs xi]. rewrite zeros_length, bufZ_zeros. change (2 ^ 0) with 1.
+    split; [apply zeros_bytes_ok|]. rewrite Z2Nat.id by (rewrite Hnb; apply Z.div_pos; lia). rewrite Hnb. lia. }
+  destruct (enc_ok_all B E HBE T o x0 Hw Hc Hs Hpre) as [Hlen (s' & E1 & L1 & O1 & B1)].
+  rewrite HT at 1. rewrite top_core, <- HT. rewrite E1. cbn [cbind fst xs]. f_equal.
+  apply bufZ_inj; try assumption.
+  - apply pack_bytes_ok.
+  - unfold x0 in L1. cbn [xs] in L1. rewrite zeros_length in L1.
+    apply Nat2Z.inj. rewrite pack_length, Hlen, L1.
+    rewrite Z2Nat.id by (rewrite Hnb; apply Z.div_pos; lia). exact Hnb.
+  - rewrite B1, bufZ_pack. unfold x0. cbn [xs xi]. rewrite bufZ_zeros. change (2 ^ 0) with 1. lia.
+Qed.
